@@ -44,6 +44,17 @@ POOL = [
     ({'latex': 'A $$ b $$ C', 'seqs': True}, 'simple equations'),
     ({'latex': 'a', 'defs': '\\newcommand{\\dd}{DD}\\usepackage{babel}\\selectlanguage{russian}'}, 'defs option'),
     ({'latex': 'a \\dd{} $x$', 'lang': 'de'}, 'after defs'),
+    ({'latex': '\\usepackage{babel}A \\foreignlanguage{UKenglish}{x y} B \\selectlanguage{klingon} C '
+               '\\begin{otherlanguage}{austrian}D\\end{otherlanguage}', 'multi': True,
+      'lang': 'en-GB'}, 'unknown language names'),
+    ({'latex': '\\documentclass[ngerman,UKenglish]{article}\\usepackage{babel}\nText hier.',
+      'multi': True, 'lang': 'en-GB'}, 'class options with an unknown language'),
+    ({'latex': '\\documentclass[klingon,austrian]{scrartcl}\\usepackage[UKenglish]{babel}\nText.',
+      'multi': True, 'lang': 'de-DE'}, 'package option with an unknown language'),
+    ({'latex': '\\usepackage{xcolor}\\textcolor{red}{important} \\colorbox{blue}{b}', 'dcls': 'article',
+      'pack': 'xcolor'}, 'article+xcolor'),
+    ({'latex': '\\textcolor{red}{important} \\colorbox{blue}{b}', 'dcls': 'article', 'pack': '',
+      'unkn': True}, 'article, xcolor macros unknown'),
 ]
 
 
@@ -76,6 +87,15 @@ def norm(r):
 
 def run(tier, seed, build, res):
     rng = random.Random(seed)
+    # documents of /repo's own tests join the pool: they use most features
+    import seeds
+    sd = seeds.load()
+    extra = []
+    for k in range(12 if tier == 'quick' else 60):
+        s_ = rng.choice(sd)
+        extra.append(({'latex': s_, 'multi': k % 3 == 0, 'lang': rng.choice(['en-GB', 'de-DE'])},
+                      'test snippet %d' % k))
+    POOL.extend(extra)
     pool = [mk(j) for j, _ in POOL]
     res.rule = ('histories over a pool of %d (document, options) calls that set '
                 'definitions, glossary entries, packages, classes, languages, '
